@@ -7,6 +7,7 @@ import gen_builder
 import gen_caps
 import gen_fsm
 import gen_comm
+import gen_timer
 
 GENERATORS = {
     'enums': (gen_enums.gen, 'EnumTables.v'),
@@ -17,4 +18,5 @@ GENERATORS = {
     'caps': (gen_caps.gen, 'CapRules.v'),
     'fsm': (gen_fsm.gen, 'FsmTable.v'),
     'comm': (gen_comm.gen, 'CommTables.v'),
+    'timer': (gen_timer.gen, 'TimerConsts.v'),
 }
